@@ -289,22 +289,21 @@ Definition reload (S : schema) (enc dec : Z -> list Z -> list Z) (alts : list (Z
 
 Section Codec5.
   Variables enc dec : Z -> list Z -> list Z.
-  Hypothesis Hcodec : forall c s, dec c (enc c s) = s.
 
   (* to_dao; flush; load; from_dao -- alternatively mapped classes and DAOs below an alternatively mapped DAO included, unless
      from_dao hands out a mapping object in progress (C04-a).  The side conditions are about the DAO graph that is persisted. *)
   Theorem reload_iso S alts ab pk l r dr s1 :
-    wf_heap l r = true -> alts_ok alts l = true -> to_dao enc alts l r = Some (dr, s1) ->
+    wf_heap l r = true -> alts_ok alts l = true -> codec_ok enc dec l = true -> to_dao enc alts l r = Some (dr, s1) ->
     wf_dao S (dst s1) (nxt s1) = true -> F05 S (dst s1) (nxt s1) = true ->
     (forall a b, a < nxt s1 -> b < nxt s1 -> K S (dst s1) pk a = K S (dst s1) pk b -> a = b) ->
     exists r' s2, reload S enc dec alts ab pk l r = Some (r', s2) /\
       (bad s2 = false -> iso (dst s2) r' (heap_of l) r) /\
       ((forall y o, y < nxt s1 -> dst s1 y = Some o -> zassoc_inv (ocls o) alts = None) -> bad s2 = false).
   Proof.
-    intros Hwf Hok Hto Hwd HF5 Hinj. unfold reload. rewrite Hto.
+    intros Hwf Hok Hco Hto Hwd HF5 Hinj. unfold reload. rewrite Hto.
     set (L := load S (flush S (dst s1) (nxt s1) pk)).
     assert (HL : forall a, a < nxt s1 -> L a = dst s1 a) by (intros a Ha; apply load_flush; auto).
-    destruct (second_stage enc dec Hcodec alts ab l r dr s1 L Hwf Hok Hto HL) as [r' [s2 [E2 [Hiso Hnb]]]].
+    destruct (second_stage enc dec alts ab l r dr s1 L Hwf Hok Hco Hto HL) as [r' [s2 [E2 [Hiso Hnb]]]].
     exists r', s2. split; [exact E2|]. split; [exact Hiso|].
     intros H. apply Hnb. intros y o Hy Ho. rewrite HL in Ho by auto. eauto.
   Qed.
@@ -414,7 +413,7 @@ Proof.
   destruct (todao_facts idc alts l r Hwf) as [dr [s1 [E1 [I1 [M1 [_ [D1 _]]]]]]].
   exists dr, s1. split; [exact E1|]. intros Hinj.
   destruct (conditions_transfer S alts l r dr s1 Hwf HF E1 Hws HFs) as [Hwd HF5].
-  destruct (reload_iso idc idc (fun _ _ => eq_refl) S alts ab pk l r dr s1 Hwf (F04_alts_ok alts l HF) E1 Hwd HF5 Hinj)
+  destruct (reload_iso idc idc S alts ab pk l r dr s1 Hwf (F04_alts_ok alts l HF) (codec_ok_id l) E1 Hwd HF5 Hinj)
     as [r' [s2 [E2 [Hiso Hnb]]]].
   exists r', s2. split; [exact E2|]. apply Hiso. apply Hnb.
   intros y ob Hy Hyo. destruct I1 as [_ [_ [K3 _]]].
@@ -431,8 +430,8 @@ Proof.
   unfold K, pk_id. destruct (d a), (d b); intros H; inversion H; lia.
 Qed.
 
-Definition model_reload (S : schema) (alts : list (Z * Z)) (ab : list Z) (l : lheap) (r : addr) : sx :=
-  match reload S idc idc alts ab (pk_id 1) l r with
+Definition model_reload (S : schema) (alts : list (Z * Z)) (ab : list Z) (gc : gcmodel) (l : lheap) (r : addr) : sx :=
+  match reload S idc (decg gc) alts ab (pk_id 1) l r with
   | None => SL [SZ (-2)%Z]
   | Some (r', s2) => sx_canon (canon (dst s2) (nxt s2) r')
   end.
@@ -450,20 +449,21 @@ Definition model_counts (S : schema) (alts : list (Z * Z)) (l : lheap) (r : addr
 
 (* 1: coherent class model and no mapping object handed out in progress (C05_reload applies as far as C04 goes);
    2: the DAO graph fits the schema; 4: F05.  7 = inside the fragment. *)
-Definition frag_code (S : schema) (alts : list (Z * Z)) (ab : list Z) (l : lheap) (r : addr) : Z :=
+Definition frag_code (S : schema) (alts : list (Z * Z)) (ab : list Z) (gc : gcmodel) (l : lheap) (r : addr) : Z :=
   match to_dao idc alts l r with
   | None => (-1)%Z
   | Some (dr, s1) =>
-      ((if alts_ok alts l && match reload S idc idc alts ab (pk_id 1) l r with Some (_, s2) => negb (bad s2) | None => false end
+      ((if alts_ok alts l && codec_ok idc (decg gc) l &&
+           match reload S idc (decg gc) alts ab (pk_id 1) l r with Some (_, s2) => negb (bad s2) | None => false end
         then 1 else 0)
        + (if wf_dao S (dst s1) (nxt s1) then 2 else 0)
        + (if F05 S (dst s1) (nxt s1) then 4 else 0))%Z
   end.
 
-Definition case_code5 (S : schema) (alts : list (Z * Z)) (ab : list Z) (tables tags : list Z) (l : lheap) (r : addr)
+Definition case_code5 (S : schema) (alts : list (Z * Z)) (ab : list Z) (gc : gcmodel) (tables tags : list Z) (l : lheap) (r : addr)
   (l' : lheap) (r' : addr) (counts : sx) : sx :=
-  SL [SZ (classify (spec_canon l' r') (model_reload S alts ab l r) (spec_canon l r));
-      SZ (frag_code S alts ab l r);
+  SL [SZ (classify (spec_canon l' r') (model_reload S alts ab gc l r) (spec_canon l r));
+      SZ (frag_code S alts ab gc l r);
       SZ (if wf_heap l r && wf_heap l' r' then 1 else 0)%Z;
       SZ (if sx_eqb counts (model_counts S alts l r tables tags) then 1 else 0)%Z].
 
@@ -507,14 +507,14 @@ Qed.
    the roots (elements of the holder's single collection field; the holder is not persisted) are converted with ONE ToDAOState,
    flushed, read back in a fresh session and converted with ONE explicitly created FromDAOState.  Executable companion for the
    correspondence; the shared FromDAOState is covered by C04_state_reuse_safe for two roots. *)
-Definition reload_multi (S : schema) (alts : list (Z * Z)) (ab : list Z) (l : lheap) (h : addr)
+Definition reload_multi (S : schema) (alts : list (Z * Z)) (ab : list Z) (gc : gcmodel) (l : lheap) (h : addr)
   : option (heap * addr * nat * bool * st) :=
   match heap_of l h with
   | Some (mkObj c sc [(t, rs)]) =>
       match walk_list (walk (P_todao idc alts) (heap_of l) (Datatypes.S (length l))) rs st0 with
       | Some (ds, s1) =>
           let L := load S (flush S (dst s1) (nxt s1) (pk_id 1)) in
-          match walk_list (walk (P_fromdao idc alts ab) L (Datatypes.S (nxt s1))) ds st0 with
+          match walk_list (walk (P_fromdao (decg gc) alts ab) L (Datatypes.S (nxt s1))) ds st0 with
           | Some (bs, s2) => Some (upd (dst s2) (nxt s2) (mkObj c sc [(t, bs)]), nxt s2, Datatypes.S (nxt s2), bad s2, s1)
           | None => None
           end
@@ -523,16 +523,16 @@ Definition reload_multi (S : schema) (alts : list (Z * Z)) (ab : list Z) (l : lh
   | _ => None
   end.
 
-Definition case_code5_multi (S : schema) (alts : list (Z * Z)) (ab : list Z) (tables tags : list Z) (l : lheap) (h : addr)
+Definition case_code5_multi (S : schema) (alts : list (Z * Z)) (ab : list Z) (gc : gcmodel) (tables tags : list Z) (l : lheap) (h : addr)
   (l' : lheap) (h' : addr) (counts : sx) : sx :=
-  match reload_multi S alts ab l h with
+  match reload_multi S alts ab gc l h with
   | None => SL [SZ 3%Z; SZ (-1)%Z; SZ 0%Z; SZ 0%Z]
   | Some (hp, r, n, b, s1) =>
       let D := flush S (dst s1) (nxt s1) (pk_id 1) in
       let mc := SL [SL (map (fun t => SZ (Z.of_nat (count_z t (map (fun x : key * Z * list Z => snd (fst x)) (t_rows D))))) tables);
                     SL (map (fun t => SZ (Z.of_nat (count_z t (map (fun x : key * Z * key => snd (fst x)) (t_assoc D))))) tags)] in
       SL [SZ (classify (spec_canon l' h') (sx_canon (canon hp n r)) (spec_canon l h));
-          SZ ((if alts_ok alts l && negb b then 1 else 0) + (if wf_dao S (dst s1) (nxt s1) then 2 else 0)
+          SZ ((if alts_ok alts l && codec_ok idc (decg gc) l && negb b then 1 else 0) + (if wf_dao S (dst s1) (nxt s1) then 2 else 0)
               + (if F05 S (dst s1) (nxt s1) then 4 else 0))%Z;
           SZ (if wf_heap l h && wf_heap l' h' then 1 else 0)%Z;
           SZ (if sx_eqb counts mc then 1 else 0)%Z]
@@ -541,5 +541,5 @@ Definition case_code5_multi (S : schema) (alts : list (Z * Z)) (ab : list Z) (ta
 Example reload_multi_example :
   let S := mkSchema [] [(1%Z, 1); (2%Z, 0)] [(1%Z, [3%Z]); (2%Z, [])] [] in
   let l := [(0, mkObj 1 [7%Z] [(3%Z, [1; 1])]); (1, mkObj 2 [] []); (2, mkObj 1 [8%Z] [(3%Z, [1])]); (3, mkObj 99 [] [(0%Z, [0; 2; 0])])] in
-  case_code5_multi S [] [] [1; 2]%Z [3%Z] l 3 l 3 (SL [SL [SZ 2; SZ 1]; SL [SZ 3]])%Z = SL [SZ 1; SZ 3; SZ 1; SZ 1]%Z.
+  case_code5_multi S [] [] [] [1; 2]%Z [3%Z] l 3 l 3 (SL [SL [SZ 2; SZ 1]; SL [SZ 3]])%Z = SL [SZ 1; SZ 3; SZ 1; SZ 1]%Z.
 Proof. vm_compute. reflexivity. Qed.
